@@ -207,6 +207,10 @@ func replaySched(callers int, sched []action) vc.Val {
 	}
 	closeReturned := false
 	cbsAtClose := -1
+	// the wake-up channel as the harness sees it: its generation (re-armings so far) and whether a notify function of the
+	// current generation has run - needed to drive the resolver to rest afterwards without relying on timing
+	gen, chClosed := 0, false
+	cgen := make([]int, callers)
 	abort := func() vc.Val {
 		finish()
 		drain(ps, cps)
@@ -241,6 +245,7 @@ func replaySched(callers int, sched []action) vc.Val {
 					return abort()
 				}
 				pollerAt = "resolver:poll:rearmed"
+				gen, chClosed = gen+1, false
 			case "resolver:poll:rearmed":
 				ps.poller.resume <- struct{}{}
 				if !waitAt(ps.poller, "resolver:poll:start") {
@@ -269,6 +274,7 @@ func replaySched(callers int, sched []action) vc.Val {
 					return abort()
 				}
 				c.state = 1
+				cgen[a.arg] = gen
 			case 1:
 				c.p.resume <- struct{}{}
 				select {
@@ -277,6 +283,9 @@ func replaySched(callers int, sched []action) vc.Val {
 					return abort()
 				}
 				c.state = 2
+				if cgen[a.arg] == gen {
+					chClosed = true
+				}
 			default:
 				return abort()
 			}
@@ -314,31 +323,56 @@ func replaySched(callers int, sched []action) vc.Val {
 		}
 	}
 	watcher.mu.Unlock()
-	// quiescence: everybody runs freely until nothing moves any more
-	finish()
-	drain(ps, cps)
-	for _, c := range cs {
-		if c.state == 1 {
-			select {
-			case <-c.done:
-			case <-time.After(parkWait):
+	// to rest, step by step (no timing): the pending calls return, then the poller runs its polls until it waits on an
+	// open channel - parked at before-select, every callback of the last poll has been made
+	if !closeReturned {
+		for i, c := range cs {
+			if c.state == 1 {
+				c.p.resume <- struct{}{}
+				select {
+				case <-c.done:
+				case <-time.After(parkWait):
+					return abort()
+				}
+				c.state = 2
+				if cgen[i] == gen {
+					chClosed = true
+				}
 			}
 		}
-	}
-	stable, lastN, lastS := 0, -1, -1
-	for i := 0; i < 3000 && stable < 25; i++ {
-		time.Sleep(time.Millisecond)
-		watcher.mu.Lock()
-		n := watcher.n
-		watcher.mu.Unlock()
-		srv.Mu.Lock()
-		s := srv.Streams
-		srv.Mu.Unlock()
-		if n == lastN && s == lastS {
-			stable++
-		} else {
-			stable, lastN, lastS = 0, n, s
+		for rounds := 0; rounds < 50; rounds++ {
+			if pollerAt == "resolver:poll:start" {
+				ps.poller.resume <- struct{}{}
+				if !waitAt(ps.poller, "resolver:poll:before-select") {
+					return abort()
+				}
+				pollerAt = "resolver:poll:before-select"
+			}
+			if pollerAt == "resolver:poll:before-select" {
+				if !chClosed {
+					break
+				}
+				ps.poller.resume <- struct{}{}
+				if !waitAt(ps.poller, "resolver:poll:woken") {
+					return abort()
+				}
+				ps.poller.resume <- struct{}{}
+				if !waitAt(ps.poller, "resolver:poll:rearmed") {
+					return abort()
+				}
+				pollerAt = "resolver:poll:rearmed"
+				gen, chClosed = gen+1, false
+			}
+			if pollerAt == "resolver:poll:rearmed" {
+				ps.poller.resume <- struct{}{}
+				if !waitAt(ps.poller, "resolver:poll:start") {
+					return abort()
+				}
+				pollerAt = "resolver:poll:start"
+			}
 		}
+	} else {
+		time.Sleep(30 * time.Millisecond) // a callback after Close would have to show up now (waiting longer only finds more)
 	}
 	late := 0
 	quiescentLast := -1
@@ -352,6 +386,8 @@ func replaySched(callers int, sched []action) vc.Val {
 		}
 	}
 	watcher.mu.Unlock()
+	finish()
+	drain(ps, cps)
 	if !closeReturned {
 		res.Close()
 	}
